@@ -16,7 +16,7 @@ func steps(c *vlib.Case, p *Profile) int {
 
 func TestC02(t *testing.T) {
 	vlib.SetRule("C02", "TestC02", "generated histories (2-4 nodes, <=60 steps quick / <=150 thorough) of local writes, compactions, leaves, joins, gossip rounds and per-packet deliver/drop/duplicate/reorder/partition steps over real gossip nodes with per-node packet limits down to the minimum viable size; a third of the cases never forget a node; oracle after every step: authenticity against the owner's recorded write history, no loss/rollback up to the reported version, staleness only as permitted by the compaction point, own state untouched by received messages, versions monotone; non-trivial = a truncated delta AND one of relay-only learning, duplicate delivery, reordering, compaction after a delete")
-	p := &Profile{Prop: "C02", Oracles: map[string]bool{"C02": true}, AllowNoSweep: true, TinyPackets: true, MaxSteps: maxSteps(60, 150),
+	p := &Profile{Prop: "C02", Oracles: map[string]bool{"C02": true}, AllowNoSweep: true, TinyPackets: true, MaxSteps: maxSteps(60, 150), MaxNodes: maxSteps(4, 6),
 		Weights: map[string]int{"compact": 6, "delete": 7}}
 	vlib.RunSync(t, "C02", func(c *vlib.Case) {
 		s := New(c, p)
@@ -35,7 +35,7 @@ func TestC02(t *testing.T) {
 
 func TestC14(t *testing.T) {
 	vlib.SetRule("C14", "TestC14", "same history generator as C02; oracle after every step: the fold of all watcher notifications received by a node (join before keys, upsert/delete edits, leave/unreachable/reachable flags, expired removes) equals its visible view of every remote node; non-trivial = a compaction after a delete occurred and some delta was truncated")
-	p := &Profile{Prop: "C14", Oracles: map[string]bool{"C14": true}, TinyPackets: true, MaxSteps: maxSteps(60, 150),
+	p := &Profile{Prop: "C14", Oracles: map[string]bool{"C14": true}, TinyPackets: true, MaxSteps: maxSteps(60, 150), MaxNodes: maxSteps(4, 6),
 		Weights: map[string]int{"compact": 6, "delete": 7}}
 	vlib.RunSync(t, "C14", func(c *vlib.Case) {
 		s := New(c, p)
@@ -154,7 +154,7 @@ func TestC11(t *testing.T) {
 	vlib.SetRule("C11", "TestC11", "histories with leave (plus leave notifications and close), crash, partition/heal, virtual-time advances, liveness evaluations and expiry sweeps on every survivor independently, with directed steps that sleep to either side of the suspicion threshold and of a known expiry instant (+-1ns..1s); half of the cases are biased to the lifecycle steps after a crash; oracle after every atomic action: I1-I6 of DESIGN.md (local node immune, left is sticky and only self-declared, left digest entries never re-introduce, expiry set/cleared/enforced exactly on the virtual clock, unreachable == suspicion above threshold, gone nodes stay forgotten); non-trivial = a node was expired while another live node still listed it, or an unreachable node recovered")
 	vlib.RunSync(t, "C11", func(c *vlib.Case) {
 		p := &Profile{Prop: "C11", Oracles: map[string]bool{"C11": true}, MaxSteps: maxSteps(70, 150),
-			Weights: map[string]int{"leave": 3, "leaveVia": 3, "close": 2, "crash": 3, "silence": 5, "toExpiry": 6, "sweep": 3, "liveness": 4, "upsert": 3, "delete": 1, "compact": 1, "addConn": 2, "removeConn": 1}}
+			Weights: map[string]int{"leave": 3, "leaveVia": 3, "close": 2, "crash": 3, "silence": 5, "toExpiry": 6, "sweep": 3, "liveness": 4, "upsert": 4, "delete": 3, "compact": 3, "addConn": 2, "removeConn": 1}}
 		p.Lifecycle = c.Bool("lifecycleBias")
 		s := New(c, p)
 		n := steps(c, p)
